@@ -1615,6 +1615,12 @@ static void emit_text(Obj *prog) {
 void codegen(Obj *prog, FILE *out) {
   output_file = out;
 
+  // Name the translation unit in the object's symbol table. Without an
+  // STT_FILE symbol the linker makes one up from the name of the object
+  // file, which for `chibicc x.c` is a randomly named temporary, so the
+  // linked output would differ from run to run.
+  println("  .file \"%s\"", base_file);
+
   File **files = get_input_files();
   for (int i = 0; files[i]; i++)
     println("  .file %d \"%s\"", files[i]->file_no, files[i]->name);
